@@ -19,7 +19,7 @@ def rate(m: int) -> float:
 
 
 def case_key(c: dict) -> str:
-    return "|".join(str(c[k]) for k in ("net", "kind", "m", "m2", "ystar", "dev", "c", "td", "rel", "user", "u", "prior"))
+    return "|".join(str(c[k]) for k in ("net", "kind", "m", "m2", "ystar", "dev", "c", "td", "rel", "user", "u", "prior", "entry"))
 
 
 def scale(c: dict) -> float:
@@ -173,7 +173,38 @@ def _simulator(c: dict):
 
 
 def run_case(c: dict) -> dict:
-    """Simulator(model[, y0]) [history] .simulate_to_steady_state(tolerance=, rel_norm=).get_result() projected."""
+    """Simulator(model[, y0]) [history] .simulate_to_steady_state(tolerance=, rel_norm=).get_result() projected.
+
+    Whatever the library raises while the history is played or the result is observed is the library's ANSWER to
+    this case (judged as a disagreement), never a failure of the harness."""
+    try:
+        return _run_case(c)
+    except LibraryRaised as e:
+        return {"kind": "library-exception", "phase": e.phase, "exc": e.exc, "message": e.message}
+
+
+class LibraryRaised(Exception):
+    def __init__(self, phase: str, err: BaseException):
+        super().__init__(phase)
+        self.phase, self.exc, self.message = phase, type(err).__name__, str(err)[:300]
+
+
+class _phase:
+    """with _phase("..."): library calls -- an exception inside is re-raised as LibraryRaised."""
+
+    def __init__(self, name: str):
+        self.name = name
+
+    def __enter__(self):
+        return self
+
+    def __exit__(self, et, ev, tb):
+        if ev is not None and not isinstance(ev, LibraryRaised) and isinstance(ev, Exception):
+            raise LibraryRaised(self.name, ev) from ev
+        return False
+
+
+def _run_case(c: dict) -> dict:
     import numpy as np
     from mxlpy.simulation import Simulation
 
@@ -187,24 +218,43 @@ def run_case(c: dict) -> dict:
         c1 = first_case(c)
         segcases = [c1, c]
         model, sim = _simulator(c1)
-        sim.simulate_to_steady_state(tolerance=tol, rel_norm=bool(c["rel"]))
-        first = sim.get_result().value
+        with _phase("first steady-state search"):
+            sim.simulate_to_steady_state(tolerance=tol, rel_norm=bool(c["rel"]))
+            first = sim.get_result().value
         if isinstance(first, Exception):
             return {"kind": "first-search-failed", "detail": repr(first)[:200]}
-        sim.update_parameters(parameters(c))
+        with _phase("update_parameters"):
+            sim.update_parameters(parameters(c))
+    elif prior == "simupdvar":
+        # simulate from other initial values, then set the variables to the case's initial state
+        names = VARS[c["net"]]
+        model = build(c, other_defaults(c))
+        with _phase("Simulator"):
+            from mxlpy import Simulator
+
+            sim = Simulator(model)
     else:
         model, sim = _simulator(c)
-    if prior in ("sim", "simclear"):
+    if prior in ("sim", "simclear", "protocol", "simupdvar"):
         # the history of the case: an ordinary simulation over one loop step length succeeds first
-        sim.simulate(STEP, steps=4)
-        before = sim.get_result().value
-        if isinstance(before, Exception) or float(before.variables.index[-1]) != STEP:
-            return {"kind": "prior-failed", "detail": repr(before)[:200]}
-        obs["prior_rows"] = int(len(before.variables))
-        if prior == "simclear":
-            sim.clear_results()
-    res = sim.simulate_to_steady_state(tolerance=tol, rel_norm=bool(c["rel"])).get_result()
-    val = res.value
+        with _phase("simulation before the search"):
+            if prior == "protocol":
+                from mxlpy import make_protocol
+
+                sim.simulate_protocol(make_protocol([(STEP, parameters(c))]), time_points_per_step=4)
+            else:
+                sim.simulate(STEP, steps=4)
+            before = sim.get_result().value
+            if isinstance(before, Exception) or float(before.variables.index[-1]) != STEP:
+                return {"kind": "prior-failed", "detail": repr(before)[:200]}
+            obs["prior_rows"] = int(len(before.variables))
+            if prior == "simclear":
+                sim.clear_results()
+            if prior == "simupdvar":
+                sim.update_variables(dict(zip(VARS[c["net"]], y0_of(c))))
+    with _phase("simulate_to_steady_state / get_result"):
+        res = sim.simulate_to_steady_state(tolerance=tol, rel_norm=bool(c["rel"])).get_result()
+        val = res.value
     if isinstance(val, Exception):
         obs["kind"] = "error"
         obs["exc"] = type(val).__name__
@@ -220,6 +270,14 @@ def run_case(c: dict) -> dict:
     if not isinstance(val, Simulation):
         return {"kind": "other", "type": type(val).__name__}
     obs["kind"] = "value"
+    with _phase("reading the steady-state result"):
+        return _observe(c, val, model, obs, prior, segcases)
+
+
+def _observe(c: dict, val, model, obs: dict, prior: str, segcases: list) -> dict:
+    import numpy as np
+
+    names = VARS[c["net"]]
     var = val.get_variables(include_derived_variables=False, include_readouts=False, include_surrogate_variables=False)
     obs["rows"] = int(len(var))
     obs["segments"] = len(val.raw_parameters)
@@ -256,8 +314,17 @@ def allowed_deviation(c: dict) -> list[float]:
     out = []
     for ys, dv in zip(c["ystar"], c["dev"]):
         bound = tol * (ys + abs(dv)) * sc / k if c["rel"] else tol / k
-        out.append(1.01 * bound + 1e-6 * max(1.0, abs(ys) * sc) + 1e-9)
+        out.append(1.01 * bound + integrator_slack(c, ys))
     return out
+
+
+def integrator_slack(c: dict, ys: float) -> float:
+    """Additive allowance for the integrator (rtol 1e-6 in the steady-state code path): 1e-6 max(1, |y*|) + 1e-9 for
+    concentrations of order one; for the tiny-concentration family (u >= 16) the same, times the scale."""
+    sc = scale(c)
+    if c.get("u", 0) >= 16:
+        return (1e-6 * max(1.0, abs(ys)) + 1e-9) * sc
+    return 1e-6 * max(1.0, abs(ys) * sc) + 1e-9
 
 
 def judge_point(c: dict, pt: dict, which: str) -> dict | None:
@@ -285,6 +352,9 @@ def judge(pred: dict, obs: dict) -> dict | None:
     """pred: {case, outcome in ok|fail, slo, shi, undefined}. None = conforms."""
     c = pred["case"]
     prior = c.get("prior", "none")
+    if obs["kind"] == "library-exception":
+        return {"what": f"the library raised during: {obs['phase']}", "exc": obs["exc"], "message": obs["message"],
+                "observed": obs}
     if obs["kind"] == "prior-failed":
         return {"what": "the ordinary simulation before the steady-state search failed", "observed": obs}
     if obs["kind"] == "first-search-failed":
@@ -302,13 +372,14 @@ def judge(pred: dict, obs: dict) -> dict | None:
         # accepted if and only if it is that steady state (an undefined norm must not be taken for convergence)
     elif obs["kind"] != "value":
         return {"what": "failure reported for a network with a stable steady state", "observed": obs}
-    want_rows = 1 + (obs.get("prior_rows", 0) if prior == "sim" else 0) + (1 if prior == "ssupd" else 0)
+    held = prior in ("sim", "protocol", "simupdvar")
+    want_rows = 1 + (obs.get("prior_rows", 0) if held else 0) + (1 if prior == "ssupd" else 0)
     if not obs["finite"] or obs["rows"] != want_rows:
         return {"what": "steady-state result is not the held rows plus one finite state", "expected_rows": want_rows,
                 "observed": obs}
-    if prior == "sim" and not obs["t"] > STEP:
+    if held and not obs["t"] > STEP:
         return {"what": "the last row is not a point of the steady-state search", "observed": obs}
-    if obs["segments"] != (2 if prior in ("sim", "ssupd") else 1):
+    if obs["segments"] != (2 if held or prior == "ssupd" else 1):
         return {"what": "number of segments", "observed": obs}
     if obs["new_y0"] != obs["state"]:
         return {"what": "get_new_y0 differs from the returned state", "observed": obs}
@@ -354,13 +425,21 @@ def classify(pred: dict, detail: dict) -> str | None:
 # scan rows
 # ---------------------------------------------------------------------------------------------------
 def run_scan(group: dict) -> dict:
-    """scan.steady_state over rows that are pool1 / const1 cases (same initial value): parameters a, k per row."""
+    """scan.steady_state over rows that are pool1 / const1 cases: parameters a, k per row (and the initial value when
+    it is scanned), and the same rows through the direct Simulator call under the same options."""
+    try:
+        return _run_scan(group)
+    except LibraryRaised as e:
+        return {"kind": "library-exception", "phase": e.phase, "exc": e.exc, "message": e.message}
+
+
+def _run_scan(group: dict) -> dict:
     import numpy as np
     import pandas as pd
-    from mxlpy import scan
+    from mxlpy import Simulator, scan
 
     cases = group["cases"]
-    base = build(cases[0], [5.0])
+    base = build(cases[0], [5.0 * scale(cases[0])])
     rows = [parameters(c) for c in cases]
     to_scan = pd.DataFrame({"a": [r["a"] for r in rows], "k": [r["k"] for r in rows]})
     if group["scan_y0"]:
@@ -368,21 +447,34 @@ def run_scan(group: dict) -> dict:
         y0 = None
     else:
         y0 = {"x": y0_of(cases[0])[0]}
-    out = scan.steady_state(base, to_scan=to_scan, y0=y0, parallel=False, rel_norm=bool(group["rel"]))
-    var = out.variables
-    flx = out.fluxes
-    return {"index_len": int(len(var)),
-            "x": [float(v) for v in var["x"].to_numpy()],
-            "flux_nan": [bool(np.isnan(flx.iloc[i].to_numpy(dtype=float)).all()) for i in range(len(flx))],
-            "flux_net": [float(flx.iloc[i]["vin"] - flx.iloc[i]["vout"]) for i in range(len(flx))]}
+    with _phase("scan.steady_state"):
+        out = scan.steady_state(base, to_scan=to_scan, y0=y0, parallel=False, rel_norm=bool(group["rel"]))
+        var = out.variables
+        flx = out.fluxes
+        obs = {"kind": "rows", "index_len": int(len(var)),
+               "x": [float(v) for v in var["x"].to_numpy()],
+               "flux_net": [float(flx.iloc[i]["vin"] - flx.iloc[i]["vout"]) for i in range(len(flx))]}
+    direct = []
+    with _phase("direct Simulator call for a scan row"):
+        for c in cases:
+            v = Simulator(build(c)).simulate_to_steady_state(rel_norm=bool(group["rel"])).get_result().value
+            direct.append(float("nan") if isinstance(v, Exception) else float(v.get_new_y0()["x"]))
+    obs["direct"] = direct
+    return obs
 
 
 def judge_scan(group: dict, preds: list[dict], obs: dict) -> dict | None:
+    if obs["kind"] == "library-exception":
+        return {"what": f"the library raised during: {obs['phase']}", "exc": obs["exc"], "message": obs["message"]}
     if obs["index_len"] != len(preds):
         return {"what": "scan row count", "expected": len(preds), "observed": obs["index_len"]}
     for i, p in enumerate(preds):
         c = p["case"]
-        x = obs["x"][i]
+        x, dx = obs["x"][i], obs["direct"][i]
+        # the scan row and the direct call under the same options (default tolerance, same norm mode) must agree
+        if (x != x) != (dx != dx) or (x == x and abs(x - dx) > 1e-9 * max(abs(x), abs(dx)) + 1e-300):
+            return {"what": "scan row differs from the direct Simulator call under the same options", "row": i,
+                    "scan": x, "direct": dx, "rel_norm": bool(group["rel"])}
         if p["outcome"] == "fail":
             # (fluxes of the placeholder are computed from NaN states: a flux that does not depend on a variable is
             # finite there, so only the state row is required to be NaN)
@@ -391,15 +483,11 @@ def judge_scan(group: dict, preds: list[dict], obs: dict) -> dict | None:
             continue
         if x != x:
             return {"what": "scan row of a network with a steady state is NaN", "row": i}
-        tol = 1.0 / c["td"]
-        k = 2 ** c["m"] - 1
-        sc = scale(c)
-        bound = tol * (c["ystar"][0] + abs(c["dev"][0])) * sc / k if c["rel"] else tol / k
-        a = 1.01 * bound + 1e-6 * max(1.0, c["ystar"][0] * sc) + 1e-9
-        if abs(x - c["ystar"][0] * sc) > a:
-            return {"what": "scan row is not the steady state", "row": i, "analytic": c["ystar"][0] * sc, "observed": x,
-                    "allowed_deviation": a}
-        if abs(obs["flux_net"][i]) > rate(c["m"]) * a + 1e-12:
+        a = allowed_deviation(c)[0]
+        if abs(x - c["ystar"][0] * scale(c)) > a:
+            return {"what": "scan row is not the steady state", "row": i, "analytic": c["ystar"][0] * scale(c),
+                    "observed": x, "allowed_deviation": a, "rel_norm": bool(group["rel"])}
+        if abs(obs["flux_net"][i]) > rate(c["m"]) * a + 1e-12 * scale(c):
             return {"what": "scan row fluxes do not balance", "row": i, "net": obs["flux_net"][i]}
     return None
 
@@ -416,7 +504,7 @@ def random_case(rnd: random.Random) -> dict:
     def case(kind, m, m2, ystar, dev, c):
         return {"net": net, "kind": kind, "m": m, "m2": m2, "ystar": ystar, "dev": dev, "c": c, "td": td,
                 "rel": rel, "user": user, "u": rnd.choice([0, 0, 3, 6]),
-                "prior": rnd.choice(["none", "none", "sim", "simclear"])}
+                "prior": rnd.choice(["none", "none", "sim", "simclear", "protocol", "simupdvar"]), "entry": "simulator"}
 
     def history(c):
         """steady state / parameter update / steady state, where the family is exact for it"""
